@@ -352,6 +352,276 @@ def geometry_section(rep, tier, seed, rng):
 
 
 # ----------------------------------------------------------------------------------------------------
+# 3. loads
+
+MODELS = ["clpt_donnell_bc1", "clpt_donnell_bc2", "clpt_donnell_bc3", "clpt_donnell_bc4",
+          "clpt_sanders_bc1", "clpt_sanders_bc2", "clpt_sanders_bc3", "clpt_sanders_bc4",
+          "iso_clpt_donnell_bc2", "iso_clpt_donnell_bc3",
+          "fsdt_donnell_bc1", "fsdt_donnell_bc2", "fsdt_donnell_bc3", "fsdt_donnell_bc4"]
+_K0_CACHE = {}
+
+
+def shell_cc(d):
+    """fresh ConeCyl for load definition d (see load_event).  The linear matrices of an identical shell (same model,
+    series, geometry, prescribed flags) are computed by the package once and handed to later objects through the
+    public attributes k0, k0uk, k0uu: calc_fext only reads k0uk from them, which is logged with every event."""
+    cc = new_cc(d["model"], m1=d["m1"], m2=d["m2"], n2=d["n2"])
+    for k, v in d["geo"].items():
+        if v is not None:
+            setattr(cc, k, float(v))
+    cc.alphadeg = deg_of(d["s"], d["c"])
+    if d["Fc"] is not None:
+        cc.Fc = float(d["Fc"])
+    if d["nxxIn"] is not None:
+        cc.Nxxtop = float(d["nxxIn"][1]) if d["nxxIn"][0] == "scalar" else np.array([float(v) for v in d["nxxIn"][1]])
+    if d["xiLA"] is not None:
+        cc.xiLA = float(d["xiLA"])
+    cc.uTM = float(d["uTM"])
+    cc.thetaTdeg = float(d["thetaTdeg"])
+    cc.betadeg = math.degrees(math.atan(float(d["tanBeta"])))
+    cc.pdC, cc.pdT = d["pdC"], d["pdT"]
+    cc.P, cc.P_inc, cc.T, cc.T_inc = float(d["P"]), float(d["Pinc"]), float(d["T"]), float(d["Tinc"])
+    for f in d["forces"]:
+        cc.add_force(float(f["x"]), float(f["thetadeg"]), *[float(v) for v in f["F"]])
+    for f in d["forcesInc"]:
+        cc.add_force(float(f["x"]), float(f["thetadeg"]), *[float(v) for v in f["F"]], increment=True)
+    return cc
+
+
+def share_k0(cc, d):
+    key = (d["model"], d["m1"], d["m2"], d["n2"], tuple(sorted((k, v) for k, v in d["geo"].items())), d["s"], d["c"],
+           d["pdC"], d["pdT"])
+    if key in _K0_CACHE:
+        cc.k0, cc.k0uk, cc.k0uu = _K0_CACHE[key]
+    return key
+
+
+def force_json(f, G=None):
+    j = dict(F=[rat(v) for v in f["F"]])
+    if G is None:
+        j.update(p=f["p"], q=f["q"])
+    else:
+        j["G"] = G
+    return j
+
+
+def load_event(eid, d, inc, kuk=None, observed=False, pre=0):
+    """one real calc_fext(inc[, kuk]) call.  d: load definition with Fractions; forces carry x, thetadeg and, on the
+    lattice, (p, q).  observed=True: shape functions are taken from ConeCyl.uvw at unit amplitudes."""
+    cc = shell_cc(d)
+    key = share_k0(cc, d)
+    raised, fext = "no", []
+    try:
+        for _ in range(pre):
+            cc._rebuild()
+        if kuk is None:
+            fext = cc.calc_fext(inc=float(inc), silent=True)
+        else:
+            fext = cc.calc_fext(inc=float(inc), kuk=np.array(kuk, dtype=float), silent=True)
+        if key not in _K0_CACHE:
+            _K0_CACHE[key] = (cc.k0, cc.k0uk, cc.k0uu)
+    except NotImplementedError as ex:
+        raised = type(ex).__name__
+    e = dict(id=eid, kind="fext", mode="observed" if observed else "lattice", model=d["model"], m1=d["m1"], m2=d["m2"],
+             n2=d["n2"], geo={k: opt(v) for k, v in d["geo"].items()}, ang=dict(s=rat(d["s"]), c=rat(d["c"])),
+             Fc=opt(d["Fc"]), xiLA=opt(d["xiLA"]), uTM=rat(d["uTM"]), thetaTdeg=rat(d["thetaTdeg"]),
+             tanBeta=rat(d["tanBeta"]), pdC=d["pdC"], pdT=d["pdT"], pdLA=True,
+             nxxIn=[] if d["nxxIn"] is None else
+             [dict(kind=d["nxxIn"][0], v=rat(d["nxxIn"][1]) if d["nxxIn"][0] == "scalar" else [rat(v) for v in d["nxxIn"][1]])],
+             P=rat(d["P"]), Pinc=rat(d["Pinc"]), T=rat(d["T"]), Tinc=rat(d["Tinc"]), inc=rat(inc), raised=raised,
+             custom_kuk=kuk is not None, pre=pre, ring=[], obs=dy_list(fext))
+    if raised != "no":
+        e.update(forces=[force_json(f) if "p" in f else force_json(f, []) for f in d["forces"]],
+                 forcesInc=[force_json(f) if "p" in f else force_json(f, []) for f in d["forcesInc"]], kuk=[])
+        return e
+    e["kuk"] = dy_mat(cc.k0uk if kuk is None else np.array(kuk, dtype=float))
+    if not observed:
+        e["forces"] = [force_json(f) for f in d["forces"]]
+        e["forcesInc"] = [force_json(f) for f in d["forcesInc"]]
+        return e
+    # observed displacement functional: uvw at unit amplitudes, at the force points and around the top edge
+    allf = d["forces"] + d["forcesInc"]
+    n = cc.get_size()
+    nring = 4 * d["n2"] + 4
+    ring_needed = (not d["pdT"]) and (d["T"] != 0 or d["Tinc"] != 0)
+    xs = np.array([float(f["x"]) for f in allf] + [0.] * nring)
+    ts = np.array([math.radians(float(f["thetadeg"])) for f in allf] + [2 * math.pi * q / nring for q in range(nring)])
+    G = [[] for _ in allf]
+    ring = []
+    for k in range(n):
+        c = np.zeros(n)
+        c[k] = 1.
+        res = cc.uvw(c, xs=xs, ts=ts)
+        u, v, w = res[0], res[1], res[2]
+        for i in range(len(allf)):
+            G[i].append([dyadic(u[i]), dyadic(v[i]), dyadic(w[i])])
+        if ring_needed:
+            ring.append([dyadic(x) for x in v[len(allf):]])
+    nf = len(d["forces"])
+    e["forces"] = [force_json(f, G[i]) for i, f in enumerate(d["forces"])]
+    e["forcesInc"] = [force_json(f, G[nf + i]) for i, f in enumerate(d["forcesInc"])]
+    e["ring"] = ring
+    return e
+
+
+def load_req(v):
+    """REQ record printed by MC_ShellLoads -> load definition"""
+    o = lambda x: None if not x else from_rat(x[0])
+    nx = None
+    if v["nxxIn"]:
+        r = v["nxxIn"][0]
+        nx = ("scalar", from_rat(r["v"])) if r["kind"] == "scalar" else ("array", [from_rat(x) for x in r["v"]])
+    geo = {k: o(v["geo"][k]) for k in ("r1", "r2", "H", "L")}
+    L = geo["L"]
+
+    def fo(f):
+        return dict(F=[from_rat(x) for x in f["F"]], p=f["p"], q=f["q"], x=L * f["p"] / 2, thetadeg=F(90 * f["q"]))
+    ld = v["ld"]
+    return dict(model=v["sh"]["model"], m1=v["sh"]["m1"], m2=v["sh"]["m2"], n2=v["sh"]["n2"], geo=geo,
+                s=from_rat(v["ang"]["s"]), c=from_rat(v["ang"]["c"]), Fc=o(v["Fc"]), nxxIn=nx, xiLA=o(v["xiLA"]),
+                uTM=from_rat(v["uTM"]), thetaTdeg=from_rat(v["thetaTdeg"]), tanBeta=from_rat(v["tanBeta"]),
+                pdC=v["pdC"], pdT=v["pdT"], forces=[fo(f) for f in ld["forces"]], forcesInc=[fo(f) for f in ld["forcesInc"]],
+                P=from_rat(ld["P"]), Pinc=from_rat(ld["Pinc"]), T=from_rat(ld["T"]), Tinc=from_rat(ld["Tinc"])), from_rat(v["inc"])
+
+
+def random_load_def(rng, lattice_forces=False):
+    model = rng.choice(MODELS)
+    m1, m2, n2 = rng.randint(1, 4), rng.randint(1, 2), rng.randint(1, 3)
+    s, c = rng.choice(PYTH_RND)
+    r2, L = dyf(rng, 2, 300, 2), dyf(rng, 1, 500, 2)
+    geo = dict(r1=None, r2=r2, H=None, L=L)
+    if rng.random() < 0.3:
+        geo = dict(r1=r2 + L * s, r2=None, H=L * c, L=None)
+
+    def force():
+        if lattice_forces:
+            p, q = rng.randint(0, 2), rng.randint(-2, 5)
+            return dict(F=[dyf(rng, -20, 20, 2) for _ in range(3)], p=p, q=q, x=L * p / 2, thetadeg=F(90 * q))
+        return dict(F=[dyf(rng, -20, 20, 2) for _ in range(3)], x=L * dyf(rng, 0, 1, 5), thetadeg=dyf(rng, -180, 360, 3))
+    pdC = rng.random() < 0.3
+    pdT = rng.random() < 0.5
+    ax = rng.choice(["none", "scalar", "Fc", "array", "FcXi"])
+    fs = model.startswith("fsdt")
+    return dict(model=model, m1=m1, m2=m2, n2=n2, geo=geo, s=s, c=c,
+                Fc=dyf(rng, -3000, 3000, 0) if (ax in ("Fc", "FcXi") and not pdC) else None,
+                nxxIn=None if pdC else (("scalar", dyf(rng, -9, 9, 2)) if ax == "scalar" else
+                                        ("array", [dyf(rng, -9, 9, 2) for _ in range(2 * n2 + 1)]) if ax == "array" else None),
+                xiLA=dyf(rng, 0, 1, 3) if (ax == "FcXi" and not pdC) else None,
+                uTM=dyf(rng, -1, 1, 4) if pdC else F(0), thetaTdeg=rng.choice([F(0), dyf(rng, -40, 40, 1)]),
+                tanBeta=rng.choice([F(0), F(0), F(1, 8), F(3, 4)]), pdC=pdC, pdT=pdT,
+                forces=[force() for _ in range(rng.randint(0, 2))], forcesInc=[force() for _ in range(rng.randint(0, 2))],
+                P=F(0) if fs else rng.choice([F(0), dyf(rng, -3, 3, 3)]), Pinc=F(0) if fs else rng.choice([F(0), dyf(rng, -3, 3, 3)]),
+                T=rng.choice([F(0), dyf(rng, -50, 50, 1)]), Tinc=rng.choice([F(0), dyf(rng, -50, 50, 1)]))
+
+
+def static_event(eid, model, s, c, rng):
+    n2 = 2
+    d = dict(model=model, m1=3, m2=2, n2=n2, geo=dict(r1=None, r2=F(250), H=None, L=F(500)), s=s, c=c,
+             Fc=F(2000), nxxIn=None, xiLA=None, uTM=F(0), thetaTdeg=F(3, 2), tanBeta=F(0), pdC=False, pdT=True,
+             forces=[dict(F=[F(0), F(0), F(-10)], x=F(250), thetadeg=F(0)), dict(F=[F(1), F(2), F(3)], x=F(125), thetadeg=F(45))],
+             forcesInc=[dict(F=[F(-15), F(0), F(0)], x=F(0), thetadeg=F(30 * k)) for k in range(12)],
+             P=F(0) if model.startswith("fsdt") else F(1, 8), Pinc=F(0), T=F(0), Tinc=F(0))
+    cc = shell_cc(d)
+    cs = cc.static(silent=True)
+    f = cc.calc_fext(silent=True)
+    return dict(id=eid, kind="static", model=model, alphadeg=cc.alphadeg, n=len(f), kuu=dy_mat(cc.k0uu.toarray()),
+                cu=dy_list(cs[0]), f=dy_list(f))
+
+
+def loads_section(rep, tier, seed, rng):
+    inv = ["FextIsVirtualWork", "ScaleDominates", "FextLength", "AffineInInc", "Superposition", "LayoutOK",
+           "GeometryConsistent"]
+    cfg = ("SPECIFICATION EmitSpec\nCONSTANTS Tier = \"%s\"\nDev = {}\n%sCHECK_DEADLOCK FALSE\n"
+           % (tier, "".join("INVARIANT %s\n" % i for i in inv)))
+    mc = run_tlc("c18-mcl", "MC_ShellLoads", cfg, workers=16, timeout=3000)
+    rep.add_tlc("MC_ShellLoads", mc)
+    if not mc.ok:
+        rep.machinery("TLC on MC_ShellLoads failed: " + mc.errors() + mc.out[-1500:])
+        return
+    reqs = [load_req(v[1]) for v in printed_values(mc.out, "REQ")]
+    if len(reqs) < 500:
+        rep.machinery("only %d load requests parsed from TLC output" % len(reqs))
+    refreeze()
+    events = []
+    limit = 2600 if tier == "quick" else 12000
+    if len(reqs) > limit:
+        reqs = rng.sample(reqs, limit)
+    for k, (d, inc) in enumerate(reqs):
+        events.append(load_event(len(events), d, inc, pre=1 if k % 7 == 0 else 0))
+    n_lat = len(events)
+    # direction B: seeded shells / loads off the lattice: forces on lattice points (decided) and anywhere (observed)
+    nrand = 40 if tier == "quick" else 500
+    for k in range(nrand):
+        d = random_load_def(rng, lattice_forces=(k % 4 == 0))
+        events.append(load_event(len(events), d, rng.choice([F(1), F(1, 2), F(3, 8), F(2), F(-1, 4)]),
+                                 observed=(k % 4 != 0)))
+    # the `kuk` argument with a coupling column for the load-asymmetry amplitude
+    for k in range(3 if tier == "quick" else 12):
+        d = random_load_def(rng, lattice_forces=True)
+        d.update(tanBeta=F(3, 4), pdC=k % 2 == 0, pdT=True, Fc=None, nxxIn=None, xiLA=None, uTM=F(1, 8), thetaTdeg=F(10))
+        n = 3 + (5 if d["model"].startswith("fsdt") else 3) * d["m1"] + (10 if d["model"].startswith("fsdt") else 6) * d["m2"] * d["n2"]
+        rows = n - (3 if d["pdC"] else 2)
+        kuk = [[float(rng.randint(-9, 9)) for _ in range(3)] for _ in range(rows)]
+        events.append(load_event(len(events), d, F(1, 2), kuk=kuk))
+    # fsdt + pressure: the module says calc_fext refuses
+    d = random_load_def(rng, lattice_forces=True)
+    d.update(model="fsdt_donnell_bc1", P=F(2), Pinc=F(0))
+    events.append(load_event(len(events), d, F(1)))
+    n_fext = len(events)
+    # observed: K_uu c_u = f_u after static()
+    smodels = MODELS if tier != "quick" else ["clpt_donnell_bc1", "clpt_donnell_bc2", "clpt_donnell_bc4", "clpt_sanders_bc3",
+                                              "iso_clpt_donnell_bc2", "fsdt_donnell_bc1", "fsdt_donnell_bc3", "clpt_sanders_bc2"]
+    for mi, model in enumerate(smodels):
+        for s, c in (PYTH if tier != "quick" else [PYTH[0], PYTH[1 + mi % 2]]):
+            events.append(static_event(len(events), model, s, c, rng))
+    verdicts, results, problems = validate_trace(
+        "c18-trl", "Trace_ShellLoads", "CONSTANTS Tier = \"%s\"\nDev = {}\nTol = 38\nTolStatic = 30\n" % tier, events,
+        timeout=3000)
+    for res in results:
+        rep.add_tlc("Trace_ShellLoads", res)
+    for p in problems:
+        rep.machinery(p)
+    kinds = {}
+    for e in events:
+        v = verdicts.get(e["id"])
+        if e["kind"] == "static":
+            rep.nontrivial(("static", e["model"], e["alphadeg"] != 0))
+        else:
+            rep.nontrivial(("fext", e["mode"], e["model"], e["m1"], e["m2"], e["n2"], str(e["ang"]["s"]), e["pdC"], e["pdT"],
+                            len(e["forces"]), len(e["forcesInc"]), str(e["P"]) + str(e["Pinc"]), str(e["T"]) + str(e["Tinc"]),
+                            bool(e["Fc"]), bool(e["nxxIn"]), str(e["tanBeta"])))
+        if not v:
+            continue
+        kinds[(e["kind"], e.get("mode", ""), v[0])] = kinds.get((e["kind"], e.get("mode", ""), v[0]), 0) + 1
+        if v[0] == "ok":
+            continue
+        small = {k: e[k] for k in e if k not in ("obs", "kuk", "kuu", "cu", "f", "ring", "forces", "forcesInc")}
+        if e["kind"] == "fext":
+            small["forces"] = [{k: f[k] for k in f if k != "G"} for f in e["forces"]]
+            small["forcesInc"] = [{k: f[k] for k in f if k != "G"} for f in e["forcesInc"]]
+        if v[0].startswith("kf:"):
+            if e["kind"] == "static":
+                rep.known(v[0][3:], "static() of %s, alphadeg=%.6g, m1=3 m2=2 n2=2: K_uu c_u - f_u is not small in rows %s "
+                          "(all-zero stiffness rows carrying load)" % (e["model"], e["alphadeg"], sorted(v[1])[:8]))
+            else:
+                rep.known(v[0][3:], "calc_fext(inc=%s%s) of %s m1=%d m2=%d n2=%d pdC=%s pdT=%s T=%s T_inc=%s tan(beta)=%s: entries %s "
+                          "differ from the virtual work" % (from_rat(e["inc"]), ", kuk=<given>" if e["custom_kuk"] else "", e["model"],
+                                                            e["m1"], e["m2"], e["n2"], e["pdC"], e["pdT"], from_rat(e["T"]),
+                                                            from_rat(e["Tinc"]), from_rat(e["tanBeta"]), sorted(v[1])[:8]))
+        else:
+            rep.violation("%s: %s rejected by ShellLoads at entries %s: %s"
+                          % (e["kind"], "calc_fext" if e["kind"] == "fext" else "static() residual", sorted(v[1])[:10], small),
+                          dict(section="loads", event=e, bad=sorted(map(str, v[1]))))
+    rep.cov["traces_validated_against_impl"] += len(events)
+    rep.cov["evaluations"] += sum(len(e["obs"]) if e["kind"] == "fext" else e["n"] for e in events)
+    rep.cov["loads"] = dict(lattice_cases_replayed=n_lat, lattice_cases_enumerated=len(reqs), random=nrand,
+                            static_observed=len(events) - n_fext, verdict_census={"/".join(k): n for k, n in sorted(kinds.items())})
+    small = dict(events[0])
+    small["kuk"] = "<%d x 3 exact doubles>" % len(events[0]["kuk"])
+    rep.sample(small)
+
+
+# ----------------------------------------------------------------------------------------------------
 
 def run(tier, seed, build):
     warnings.filterwarnings("ignore")
@@ -361,7 +631,7 @@ def run(tier, seed, build):
         import compmech.conecyl                           # noqa: F401
     gc.freeze()           # ConeCyl.__init__ calls gc.collect(): keep the already imported world out of its way
     timer = {}
-    for name, fn in (("partition", partition_section), ("geometry", geometry_section)):
+    for name, fn in (("partition", partition_section), ("geometry", geometry_section), ("loads", loads_section)):
         t0 = time.time()
         with contextlib.redirect_stdout(io.StringIO()):
             fn(rep, tier, seed, rng)
